@@ -97,6 +97,8 @@ type Exec struct {
 	killedBy string
 
 	specMark      int
+	havocs        int
+	autoHeld      int
 	curDeferFrame *frame
 	allocEvents   []allocEvent
 	cuts          int
@@ -239,8 +241,15 @@ func (ex *Exec) decide(cond *Term) bool {
 
 // concretize forks over the feasible values of t (at most limit).
 func (ex *Exec) concretize(t *Term, limit int, why string) uint64 {
+	v, _ := ex.concretize2(t, limit, why, false)
+	return v
+}
+
+// concretize2 with soft=true returns ok=false (without forking) when t has
+// more than limit feasible values.
+func (ex *Exec) concretize2(t *Term, limit int, why string, soft bool) (uint64, bool) {
 	if t.IsConst() {
-		return t.c
+		return t.c, true
 	}
 	if ex.inSpec > 0 {
 		panic(specAbort{"concretize"})
@@ -253,7 +262,7 @@ func (ex *Exec) concretize(t *Term, limit int, why string) uint64 {
 		}
 		ex.decs = append(ex.decs, d)
 		ex.assume(ex.tb.Eq(t, ex.tb.Const(t.w, d.Val)))
-		return d.Val
+		return d.Val, true
 	}
 	ex.w.stats.Concretizations++
 	var vals []uint64
@@ -261,6 +270,9 @@ func (ex *Exec) concretize(t *Term, limit int, why string) uint64 {
 	for {
 		ex.w.stats.FeasQ++
 		r, m := ex.w.solver.CheckModel(ex.pc, conds, []*Term{t}, "")
+		if r == Unknown {
+			r, m, _ = ex.w.fallback(ex.pc, conds, []*Term{t}, "", 30)
+		}
 		if r == Unknown {
 			panic(stopf(StopUnknown, "concretize %s: solver unknown", why))
 		}
@@ -279,6 +291,9 @@ func (ex *Exec) concretize(t *Term, limit int, why string) uint64 {
 		}
 		vals = append(vals, v)
 		if len(vals) > limit {
+			if soft {
+				return 0, false
+			}
 			panic(stopf(StopShape, "concretize %s: more than %d feasible values", why, limit))
 		}
 		conds = append(conds, ex.tb.Not(ex.tb.Eq(t, ex.tb.Const(t.w, v))))
@@ -294,7 +309,7 @@ func (ex *Exec) concretize(t *Term, limit int, why string) uint64 {
 	ex.pos = len(ex.decs)
 	ex.prefix = ex.decs
 	ex.assume(ex.tb.Eq(t, ex.tb.Const(t.w, vals[0])))
-	return vals[0]
+	return vals[0], true
 }
 
 // choice forks over lo..hi without a solver.
@@ -454,7 +469,13 @@ func (ex *Exec) callFunction(fn *ssa.Function, args []Value, env []Value, pos to
 	savedFn := ex.curFn
 	ex.curFn = fn
 	ex.w.noteFn(fn)
+	if traceCalls && fn.Pkg != nil && strings.HasPrefix(fn.Pkg.Pkg.Path(), ModPath) {
+		fmt.Fprintf(os.Stderr, "TRACE %*s%s %s\n", ex.depth, "", fn.Name(), traceArgs(args))
+	}
 	ex.runFrame(fr)
+	if traceCalls && fn.Pkg != nil && strings.HasPrefix(fn.Pkg.Pkg.Path(), ModPath) {
+		fmt.Fprintf(os.Stderr, "TRACE %*s<- %s %s\n", ex.depth, "", fn.Name(), traceArgs([]Value{fr.result}))
+	}
 	ex.curFn = savedFn
 	ex.depth--
 	return fr.result
@@ -705,11 +726,18 @@ func (ex *Exec) visit(fr *frame, ins ssa.Instruction) cont {
 		}
 		ex.noteWrite(m.o, ins.Pos(), "map update")
 		kv := ex.get(fr, ins.Key)
-		k := ex.mapKey(kv)
-		if _, ok := m.m[k]; !ok {
+		if e := ex.mapFind(m, kv); e != nil {
+			e.v = copyVal(ex.get(fr, ins.Value))
+		} else {
+			var k string
+			if kt, isT := kv.(*Term); isT && !kt.IsConst() {
+				k = fmt.Sprintf("sym:%d", kt.id)
+			} else {
+				k = ex.mapKey(kv)
+			}
 			m.keys = append(m.keys, k)
+			m.m[k] = &mapEntry{kv, copyVal(ex.get(fr, ins.Value))}
 		}
-		m.m[k] = &mapEntry{kv, copyVal(ex.get(fr, ins.Value))}
 	case *ssa.TypeAssert:
 		fr.env[ins] = ex.typeAssert(ins, ex.get(fr, ins.X).(Iface))
 	default:
@@ -794,13 +822,41 @@ func (ex *Exec) store(p Ptr, v Value, pos token.Pos) {
 	}
 	ex.noteWrite(p.o, pos, "store")
 	if p.sr != nil {
-		for k, cell := range p.sr.cells {
-			cnd := ex.tb.Eq(p.sr.idx, ex.tb.Const(64, uint64(p.sr.base+int64(k))))
-			*cell = ex.iteVal(cnd, v, *cell)
+		if ex.mergeable(v) {
+			for k, cell := range p.sr.cells {
+				cnd := ex.tb.Eq(p.sr.idx, ex.tb.Const(64, uint64(p.sr.base+int64(k))))
+				*cell = ex.iteVal(cnd, v, *cell)
+			}
+			return
 		}
+		c := ex.concretize(p.sr.idx, 64, "symbolic index store of non-scalar value")
+		*p.sr.cells[int64(c)-p.sr.base] = copyVal(v)
 		return
 	}
 	*p.c = copyVal(v)
+}
+
+// mergeable says whether values of this shape can be merged into ite terms.
+func (ex *Exec) mergeable(v Value) bool {
+	switch x := v.(type) {
+	case *Term:
+		return true
+	case Struct:
+		for _, e := range x {
+			if !ex.mergeable(e) {
+				return false
+			}
+		}
+		return true
+	case Array:
+		for _, e := range x {
+			if !ex.mergeable(e) {
+				return false
+			}
+		}
+		return true
+	}
+	return false
 }
 
 // iteVal builds ite(c, a, b) over structured values.
@@ -911,12 +967,104 @@ func (ex *Exec) tryMerge(sr *SymRef) (r Value, ok bool) {
 		}
 	}()
 	n := len(sr.cells)
+	// scalar cells: read-over-write peeling keeps the term proportional to the
+	// number of earlier symbolic stores instead of the number of cells.
+	ts := make([]*Term, n)
+	allT := true
+	for k := 0; k < n; k++ {
+		t, ok := (*sr.cells[k]).(*Term)
+		if !ok {
+			allT = false
+			break
+		}
+		ts[k] = t
+	}
+	if allT {
+		return ex.peelLoad(ts, sr.base, sr.idx, 0), true
+	}
 	r = copyVal(*sr.cells[n-1])
 	for k := n - 2; k >= 0; k-- {
 		cnd := ex.tb.Eq(sr.idx, ex.tb.Const(64, uint64(sr.base+int64(k))))
 		r = ex.iteVal(cnd, *sr.cells[k], r)
 	}
 	return r, true
+}
+
+// storeShape recognises ite(X == k, V, W) as produced by a symbolic store.
+func storeShape(t *Term, k uint64) (x, v, w *Term, ok bool) {
+	if t.op != OIte {
+		return nil, nil, nil, false
+	}
+	c := t.a[0]
+	if c.op != OEq {
+		return nil, nil, nil, false
+	}
+	a, b := c.a[0], c.a[1]
+	if a.op == OConst {
+		a, b = b, a
+	}
+	if b.op != OConst || b.c != k || a.op == OConst {
+		return nil, nil, nil, false
+	}
+	return a, t.a[1], t.a[2], true
+}
+
+func (ex *Exec) peelLoad(ts []*Term, base int64, idx *Term, depth int) *Term {
+	n := len(ts)
+	same := true
+	for k := 1; k < n; k++ {
+		if ts[k] != ts[0] {
+			same = false
+			break
+		}
+	}
+	if same {
+		return ts[0]
+	}
+	if depth < 4096 {
+		x0, v0, _, ok := storeShape(ts[0], uint64(base))
+		if ok && x0.w == idx.w {
+			ws := make([]*Term, n)
+			for k := 0; k < n && ok; k++ {
+				x, v, w, is := storeShape(ts[k], uint64(base+int64(k)))
+				if !is || x != x0 || v != v0 {
+					ok = false
+					break
+				}
+				ws[k] = w
+			}
+			if ok {
+				rest := ex.peelLoad(ws, base, idx, depth+1)
+				return ex.tb.Ite(ex.tb.Eq(x0, idx), v0, rest)
+			}
+		}
+	}
+	// Group runs of identical cells (look-up tables are step functions): one
+	// comparison per run instead of one per cell.  idx is known to lie in
+	// [base, base+n-1] and is compared as a signed 64-bit value.
+	r := ts[n-1]
+	k := n - 1
+	for k > 0 && ts[k-1] == r {
+		k--
+	}
+	// now cells k..n-1 equal r; walk downwards run by run
+	for k > 0 {
+		hi := k - 1 // last index of the next run
+		v := ts[hi]
+		lo := hi
+		for lo > 0 && ts[lo-1] == v {
+			lo--
+		}
+		var cnd *Term
+		if lo == hi {
+			cnd = ex.tb.Eq(idx, ex.tb.Const(64, uint64(base+int64(hi))))
+		} else {
+			cnd = ex.tb.Sle(idx, ex.tb.Const(64, uint64(base+int64(hi))))
+		}
+		r = ex.tb.Ite(cnd, v, r)
+		k = lo
+	}
+	return r
 }
 
 func (ex *Exec) fieldAddr(p Ptr, field int, pos token.Pos) Ptr {
@@ -1069,8 +1217,7 @@ func (ex *Exec) lookup(fr *frame, ins *ssa.Lookup) Value {
 		var v Value
 		found := false
 		if x != nil {
-			k := ex.mapKey(ex.get(fr, ins.Index))
-			if e, ok := x.m[k]; ok {
+			if e := ex.mapFind(x, ex.get(fr, ins.Index)); e != nil {
 				v, found = copyVal(e.v), true
 			}
 		}
@@ -1083,6 +1230,31 @@ func (ex *Exec) lookup(fr *frame, ins *ssa.Lookup) Value {
 		return v
 	}
 	panic(stopf(StopUnsupported, "Lookup on %T", x))
+}
+
+// mapFind looks a key up, forking on equality with existing keys when the
+// key or a stored key is symbolic.
+func (ex *Exec) mapFind(m *Map, kv Value) *mapEntry {
+	kt, isT := kv.(*Term)
+	if !isT || kt.IsConst() {
+		if e, ok := m.m[ex.mapKey(kv)]; ok {
+			return e
+		}
+		if !isT {
+			return nil
+		}
+	}
+	for _, ks := range m.liveKeys() {
+		e := m.m[ks]
+		et, ok := e.k.(*Term)
+		if !ok || et.w != kt.w || (et.IsConst() && kt.IsConst()) {
+			continue
+		}
+		if ex.decide(ex.tb.Eq(kt, et)) {
+			return e
+		}
+	}
+	return nil
 }
 
 func (ex *Exec) intArg(v Value, t types.Type, limit int, why string) int {
@@ -1110,8 +1282,12 @@ func (ex *Exec) makeSlice(fr *frame, ins *ssa.MakeSlice) Value {
 	if !lv.IsConst() || !cv.IsConst() {
 		ex.allocObligation(lv, ls, elem, ins.Pos())
 	}
-	n := ex.intArg(lv, ins.Len.Type(), ex.w.cfg.MaxConcretize, "make len")
-	c := ex.intArg(cv, ins.Cap.Type(), ex.w.cfg.MaxConcretize, "make cap")
+	lim := ex.w.cfg.MaxConcretize
+	if ex.w.cfg.AllocCut+1 > lim {
+		lim = ex.w.cfg.AllocCut + 1
+	}
+	n := ex.intArg(lv, ins.Len.Type(), lim, "make len")
+	c := ex.intArg(cv, ins.Cap.Type(), lim, "make cap")
 	if n < 0 || c < n {
 		ex.recordPanic("makeslice", ins.Pos(), fmt.Sprintf("makeslice: len %d cap %d out of range", n, c), nil, true)
 		panic(goPanic{msg: "makeslice: len out of range"})
@@ -1364,4 +1540,37 @@ var errorType = types.Universe.Lookup("error").Type()
 
 func init() {
 	_ = os.Stderr
+}
+
+var traceCalls = os.Getenv("GOSYM_TRACE") != ""
+
+func traceArgs(args []Value) string {
+	var sb strings.Builder
+	for _, a := range args {
+		switch v := a.(type) {
+		case *Term:
+			if v.IsConst() {
+				fmt.Fprintf(&sb, "%d ", v.SConst())
+			} else {
+				sb.WriteString("sym ")
+			}
+		case Tuple:
+			sb.WriteString("(" + traceArgs(v) + ") ")
+		case Iface:
+			if v.t == nil {
+				sb.WriteString("nil ")
+			} else if ev, ok := v.v.(*errorValue); ok {
+				fmt.Fprintf(&sb, "err(%s) ", ev.msg)
+			} else {
+				fmt.Fprintf(&sb, "iface(%v) ", v.t)
+			}
+		case Slice:
+			fmt.Fprintf(&sb, "[%d] ", len(v.a))
+		case string:
+			fmt.Fprintf(&sb, "%q ", v)
+		default:
+			fmt.Fprintf(&sb, "%T ", a)
+		}
+	}
+	return sb.String()
 }
